@@ -55,9 +55,7 @@ OpStep ==
       en == Enabled(src, tm[i], op)
       r == IF en THEN Res(src, tm[i], op) ELSE RExc
       tnew == IF r.exc THEN NoMem ELSE NewMem(tm[i], r.cls, r.lpos, n, nb)
-      \* (squeeze / reshape down to shape (): the code hands out a 0-d unyt_array - a known finding; the repaired
-      \*  behaviour, a quantity, is accepted as well so that the check is silent with fixes/C16-squeeze-reshape-0d.patch)
-      TObj == r.o = res \/ (op.op \in SqueezeOps \cup ReshapeOps /\ ~r.exc /\ r.o.sh = <<>> /\ res = [r.o EXCEPT !.k = "Q"])
+      TObj == r.o = res
       TVals == (r.scale # 0 /\ Len(r.lpos) = Len(ro.vals) /\ SmallVals(so.vals)) => ro.vals = [j \in DOMAIN ro.vals |-> so.vals[r.lpos[j] + 1] * r.scale]
       TSm == \A j \in 1..l : ro.sm[j] = (IsArr(res) /\ IsArr(OObj(T.obs[j])) /\ Overlap(tnew, tm[j]))
       \* the bookkeeping takes fresh copies for C-contiguous; the result of advanced indexing on a later axis is not
